@@ -34,6 +34,7 @@ type RespCase struct {
 	Ops      []HOp  `json:"ops"`
 	ExplicitCL bool `json:"explicit_cl,omitempty"` // the handler sets Content-Length to the total it is going to write
 	Trailers []string `json:"trailers,omitempty"`  // declared before the body, set after it
+	TrailerLines bool `json:"trailer_lines,omitempty"` // declared with one Header().Add("Trailer", name) per name
 	FailAt   int    `json:"fail_at,omitempty"`     // transport: the k-th Write on the connection fails
 }
 
@@ -75,6 +76,7 @@ func genRespCase(r *simrt.Rand, tier string, faults bool) *RespCase {
 		c.Trailers = []string{"X-Checksum"}
 		if r.Bool(0.3) {
 			c.Trailers = append(c.Trailers, "X-Second")
+			c.TrailerLines = r.Bool(0.5)
 		}
 	}
 	if faults {
@@ -153,7 +155,11 @@ func runResp(t *testing.T, ci interface{}, trace bool, prop string) *common.Outc
 			w.Header().Set("Content-Length", fmt.Sprint(total))
 			cur.Set("Content-Length", fmt.Sprint(total))
 		}
-		if len(c.Trailers) > 0 {
+		if len(c.Trailers) > 0 && c.TrailerLines {
+			for _, k := range c.Trailers {
+				w.Header().Add("Trailer", k)
+			}
+		} else if len(c.Trailers) > 0 {
 			w.Header().Set("Trailer", strings.Join(c.Trailers, ", "))
 		}
 		off := 0
